@@ -29,10 +29,12 @@ ASSUMPTIONS = ['no-op model excluded: re-topping rewrites roles by design',
                'constants are compared by written form (str), None stays None']
 
 
-def _check_graph(g, spec, m, label):
-    """g: Graph.  every variable as top."""
+def _check_graph(g, spec, m, label, ntops=None):
+    """g: Graph.  every variable as top (or ntops evenly spread ones for huge graphs)."""
     f = []
     vs = sorted(g.variables(), key=repr)
+    if ntops and len(vs) > ntops:
+        vs = [g.top] + [vs[(i * len(vs)) // ntops] for i in range(ntops)]
     for v in vs:
         try:
             s = penman.encode(g, top=v, model=m, indent=None)
@@ -76,7 +78,7 @@ def check(case):
     m = build_model(spec)
     g, label = _graph_of(case, m)
     noise_calls(m, graph=g, roles=[t[1] for t in g.triples])
-    return _check_graph(g, spec, m, label)
+    return _check_graph(g, spec, m, label, ntops=case.get('tops'))
 
 
 def nontrivial(case):
@@ -162,8 +164,21 @@ def _branches(j):
                 yield y
 
 
+def _deep_chunks(tier):
+    return [{'d': d, 'v': v} for d in (101, 140) for v in range(4)] + [{'huge': n, 'shape': sh} for n in (90, 300) for sh in ('star', 'comb', 'binary')]
+
+
+def _deep_cases(ch):
+    j = trees.huge_tree(ch['huge'], ch['shape']) if 'huge' in ch else trees.deep_chain(ch['d'], ch['v'])
+    nt = len(interp.interpret(interp.to_node(j), {'name': 'default'}).triples)
+    for strip in (False, True):
+        for perm in (None, list(range(nt - 1, -1, -1))):
+            yield {'k': 'tree', 'tree': j, 'model': {'name': 'default'}, 'perm': perm, 'strip': strip, 'tops': 5}
+
+
 def stages(tier):
     return [
+        Enum('deep-and-huge', _deep_chunks, _deep_cases, 'chains nested 101 / 140 levels and stars, combs, binary trees of about 90 and 300 nodes (up to ~900 triples): markers kept / stripped, written / reversed order, 5 tops each'),
         Enum('small-graphs', _small_chunks, _small_cases,
              'every well-formed tree with <= 3 (quick) / 4 (thorough) branches over vars {a,b,c}, roles {:r,:r-of,:s}: decoded graph '
              'x every top x markers kept/stripped x written+reversed order; all permutations of the triple list for trees '
